@@ -80,7 +80,9 @@ fn elem_at_mut<'a>(doc: &'a mut Doc, ents: &model::Entities, loc: &str) -> Optio
 }
 
 #[derive(Debug)]
-pub enum EditErr { Refuse(&'static str), Model(String) }
+pub enum EditErr { Refuse(&'static str), Model(String),
+    /// the property does not say (a text, comment or PI node of the selection lies beneath a node that was replaced before)
+    Unspecified }
 
 fn frag_as_pieces(frag: &[Node]) -> Option<Vec<APiece>> {
     let mut v = vec![];
@@ -94,8 +96,8 @@ pub fn model_edit(doc: &Doc, tree: &RTree, selected: &[usize], frag: &[Node]) ->
     let ents = model::Entities::of(doc);
     let mut done: Vec<usize> = vec![];
     for &n in selected {
-        if done.iter().any(|&d| tree.is_ancestor(d, n)) { continue; }
         let nd = &tree.nodes[n];
+        if done.iter().any(|&d| tree.is_ancestor(d, n)) { if matches!(nd.kind, RKind::Elem | RKind::Attr | RKind::Root) { continue; } else { return Err(EditErr::Unspecified); } }
         match nd.kind {
             RKind::Elem => { let e = elem_at_mut(&mut out, &ents, &nd.locator).ok_or_else(|| EditErr::Model(format!("cannot navigate to {}", nd.locator)))?; e.children = frag.to_vec(); model::normalize(e); done.push(n); }
             RKind::Attr => {
@@ -134,6 +136,7 @@ fn gen_fragment(r: &mut Rng, kind: usize) -> (Vec<Node>, &'static str) {
         3 => (vec![Node::Text("t1".into()), leaf(r, "z"), Node::Text("t2".into()), Node::Elem(Elem { local: "y".into(), children: vec![leaf(r, "w"), Node::Comment("in".into())], ..Default::default() })], "mixed-tree"),
         4 => (vec![Node::CData(r.pick_s(&["<c>&", "x", "]] >", ""]).to_string())], "cdata"),
         5 => (vec![Node::Comment(r.pick_s(&["c", " a - b ", ""]).to_string()), leaf(r, "z")], "comment+element"),
+        6 if r.chance(1, 3) => (match r.below(4) { 0 => vec![Node::Text("]]".into()), Node::CharRef('>', r.chance(1, 2))], 1 => vec![Node::Text("]".into()), Node::CharRef(']', true), Node::Text(">".into())], 2 => vec![Node::CharRef(']', true), Node::Text("]>".into())], _ => vec![Node::Text("a]]".into()), Node::EntRef("gt".into()), Node::Text("b".into())] }, "cdata-end-across-references"),
         6 => (vec![Node::Text("a".into()), Node::EntRef(r.pick_s(&["lt", "amp", "gt", "quot", "apos"]).to_string()), Node::CharRef(*r.pick(&['A', '<', '\u{e9}', ' ']), r.chance(1, 2)), Node::Text("b".into())], "text+references"),
         7 => (vec![Node::PI("pi".into(), Some("d".into())), leaf(r, "z")], "pi+element"),
         _ => (vec![Node::Elem(Elem { prefix: Some("n".into()), local: "q".into(), nsdecls: vec![(Some("n".into()), "urn:n".into()), (None, "urn:d".into())], attrs: vec![Attr { prefix: Some("n".into()), local: "k".into(), value: vec![APiece::Text("1".into())] }], children: vec![Node::Elem(Elem { local: "in".into(), ..Default::default() })] })], "namespaced-element"),
@@ -170,7 +173,7 @@ fn hexs(s: &str) -> String { crate::util::hex_encode(s) }
 
 pub fn c17(ctx: &mut Ctx) {
     if !tool("xq").exists() || !tool("xe").exists() { ctx.inconclusive("tools_not_built"); return; }
-    let n: u64 = if ctx.thorough { 40_000 } else { 1_200 };
+    let n: u64 = if ctx.thorough { 40_000 } else { 2_400 };
     for i in 0..n {
         if !ctx.mine(i) { continue; }
         let mut r = ctx.rng(i);
@@ -196,7 +199,39 @@ pub fn c17(ctx: &mut Ctx) {
         // every fourth case selects by namespace through a caller binding (--setns)
         let uris: Vec<String> = { let mut v: Vec<String> = vec![]; for n in &tree.nodes { if n.kind == RKind::Elem { if let Some(u) = &n.uri { if !v.contains(u) && !u.contains(' ') { v.push(u.clone()); } } } } v };
         let (sel_kind, expr, ns): (&str, String, Vec<(String, String)>) = if i % 4 == 3 && !uris.is_empty() { ("by-namespace", "//c0:*".to_string(), vec![("c0".to_string(), r.pick(&uris).clone())]) } else { (sel_kind, expr, vec![]) };
-        let ast = if sel_kind == "by-namespace" { xp::Expr::Path(xp::Start::Root, vec![xp::Step { axis: xp::Axis::Child, test: xp::Test::NsAny("c0".into()), preds: vec![], dslash: true }]) } else { match parse_expr(&expr, &tree) { Some(a) => a, None => { ctx.inconclusive("expression_outside_harness_table"); continue; } } };
+        // every third case takes its path from the expression generator of C05 (any node-set or scalar expression outside the
+        // zones of recorded findings: the reference must give the same answer under every bug-compatible switch)
+        let mut generated: Option<xp::Expr> = None;
+        let (sel_kind, expr, ns) = if i % 3 == 2 {
+            let mut dns: Vec<(String, String)> = vec![];
+            fn walk(e: &Elem, ns: &mut Vec<(String, String)>) { for (p, u) in &e.nsdecls { if let Some(p) = p { if !u.is_empty() && !u.contains(' ') && !ns.iter().any(|x| &x.0 == p) { ns.push((p.clone(), u.clone())); } } } for c in &e.children { if let Node::Elem(x) = c { walk(x, ns); } } }
+            walk(&doc.root, &mut dns);
+            let g = crate::props::xpathp::c05_gen(&doc);
+            let mut found = None;
+            for _ in 0..8 {
+                let e = if r.chance(3, 4) { g.nodeset(&mut r, 1, true) } else { g.top(&mut r) };
+                let e0 = ref_eval(&tree, &e, &dns, None);
+                let clean = (1..(1u32 << xp::Dev::COUNT)).all(|m| { let (em, tainted) = crate::props::xpathp::ref_eval_dev(&tree, &e, &dns, None, xp::Dev::from_mask(m)); !tainted && crate::props::xpathp::diff(&e0, &em).is_none() });
+                // the relative order of one element's attributes is open: such selections are left to the table
+                let attr_pair = matches!(&e0, Outcome::Nodes(v) if { let mut owners: Vec<&str> = v.iter().filter_map(|l| l.find('@').map(|p| &l[..p])).collect(); let n0 = owners.len(); owners.sort(); owners.dedup(); owners.len() != n0 });
+                let order_open = crate::props::xpathp::alt_trees(&doc, &tree).iter().any(|t| crate::props::xpathp::diff(&e0, &ref_eval(t, &e, &dns, None)).is_some());
+                if clean && !attr_pair && !order_open && !matches!(e0, Outcome::Err(_)) { found = Some(e); break; }
+            }
+            match found { Some(e) => { let s = xp::render(&e, xp::Spelling::abbreviated(), None); generated = Some(e); ("generated", s, dns) } None => (sel_kind, expr, ns) }
+        } else { (sel_kind, expr, ns) };
+        // every seventh case: one reverse-axis step taken from a single node (the records must still come in document order)
+        let (sel_kind, expr, ns) = if generated.is_none() && i % 7 == 5 {
+            use xp::{Axis, Expr, Start, Step, Test};
+            let k = r.range(1, nelems.max(1));
+            let inner = Expr::Path(Start::Root, vec![Step { axis: Axis::Child, test: Test::Any, preds: vec![], dslash: true }]);
+            let pick = if r.chance(1, 4) { Expr::Func("last".into(), vec![]) } else { Expr::Num(k.to_string()) };
+            let (axis, test) = *r.pick(&[(Axis::Ancestor, 0), (Axis::AncestorOrSelf, 1), (Axis::PrecedingSibling, 1), (Axis::Preceding, 0), (Axis::AncestorOrSelf, 0), (Axis::PrecedingSibling, 0)]);
+            let e = Expr::Path(Start::Filter(Box::new(inner), vec![pick]), vec![Step { axis, test: if test == 0 { Test::Any } else { Test::Node }, preds: vec![], dslash: false }]);
+            let s = xp::render(&e, xp::Spelling::abbreviated(), None);
+            generated = Some(e);
+            ("reverse-axis-from-one-node", s, vec![])
+        } else { (sel_kind, expr, ns) };
+        let ast = if let Some(e) = generated { e } else if sel_kind == "by-namespace" { xp::Expr::Path(xp::Start::Root, vec![xp::Step { axis: xp::Axis::Child, test: xp::Test::NsAny("c0".into()), preds: vec![], dslash: true }]) } else { match parse_expr(&expr, &tree) { Some(a) => a, None => { ctx.inconclusive("expression_outside_harness_table"); continue; } } };
         let exp = ref_eval(&tree, &ast, &ns, None);
         let via_file = r.chance(1, 3);
         let path = format!("{}/c17-{}-{}.xml", std::env::temp_dir().display(), std::process::id(), i);
@@ -232,6 +267,7 @@ pub fn c17(ctx: &mut Ctx) {
                 Err(e) => ctx.inconclusive(&format!("spawn_failed:{}", crate::util::truncate(&e, 20))),
                 Ok(run) => {
                     match &expected {
+                        Err(EditErr::Unspecified) => { ctx.count("xe/unspecified-selection-beneath-replaced-node"); if let Some(sym) = ending(&run, false) { if sym != "exit-0-on-unusable-input" { ctx.violation(i, &format!("C17/cli/xe/{}/{}/{}", sel_kind, frag_kind, sym), &format!("status {:?} signal {:?} stderr {} :: {}", run.code, run.signal, crate::util::truncate(&run.stderr, 200), ctxs(&args)), &[("doc", &text), ("expr", &expr), ("value", &value)]); } } }
                         Err(EditErr::Model(m)) => { ctx.inconclusive("model_edit_failed"); if ctx.notes.len() < 6 { ctx.notes.push(format!("{} :: {}", m, ctxs(&args))); } }
                         Err(EditErr::Refuse(why)) => { if let Some(sym) = ending(&run, false) { ctx.violation(i, &format!("C17/cli/xe/{}/{}/{}", sel_kind, frag_kind, sym), &format!("unusable request ({}) :: status {:?} stderr {} stdout {} :: {}", why, run.code, crate::util::truncate(&run.stderr, 200), crate::util::truncate(&run.stdout, 200), ctxs(&args)), &[("doc", &text), ("expr", &expr), ("value", &value)]); } else { ctx.count("xe/refused-as-expected"); } }
                         Ok(want) => {
